@@ -52,26 +52,34 @@ func checkC10(c *Ctx) {
 	}
 	// body length = dwLength - 8 (the header width from the table)
 	if rw != nil {
-		tbl := c.codecTable(rw, true)
+		ls, why := c.wireLeaves(rw, true)
 		hdr, ok, det := 0, false, "no variable-length body entry"
-		for _, e := range tbl {
-			if e.width >= 0 {
-				hdr += e.width
+		decided := why == ""
+		for _, l := range ls {
+			if l.width >= 0 {
+				hdr += l.width
+				continue
 			}
-			if e.lenAff != nil {
-				want := newAffine()
-				want.K = int64(-hdr)
-				for k, v := range e.lenAff.T {
-					if strings.HasSuffix(k, ".Length") && v == 1 && len(e.lenAff.T) == 1 && e.lenAff.K == want.K {
-						ok = true
-					}
+			if l.src == nil || l.src.lenAff == nil {
+				decided = false
+				continue
+			}
+			la := l.src.lenAff
+			for k, v := range la.T {
+				if strings.HasSuffix(k, ".Length") && v == 1 && len(la.T) == 1 && la.K == int64(-hdr) {
+					ok = true
 				}
-				if !ok {
-					det = fmt.Sprintf("body length is %s, want dwLength-%d", e.lenOf, hdr)
-				}
+			}
+			if !ok {
+				det = fmt.Sprintf("body length is %s, want dwLength-%d", la.String(), hdr)
 			}
 		}
-		c.R.Check(ok, "G1.tail", name(rw), "body.len", c.Pos(rw.Pos()), "the certificate body is dwLength minus the 8 header bytes", det)
+		if !decided && !ok {
+			c.R.Infof("G1.tail", name(rw), "body.len", c.Pos(rw.Pos()), "not decided for this shape: the length of the certificate body cannot be evaluated")
+			ok = true
+		} else {
+			c.R.Check(ok, "G1.tail", name(rw), "body.len", c.Pos(rw.Pos()), "the certificate body is dwLength minus the 8 header bytes", det)
+		}
 	}
 	// the GUID variant consumes nothing beyond the WIN_CERTIFICATE: the input stream is only ever
 	// handed to the WIN_CERTIFICATE reader, and type GUID / data derive from the consumed body
